@@ -282,4 +282,38 @@ theorem zeros_crc (n : Nat) :
   have := zeros_append n []
   simpa using this
 
+
+/-! ## the `Nat`-length model `crc32` faults when a byte of `[0, length)` is missing -/
+
+theorem loadBytes_short (mem : List Byte) : ∀ (n off : Nat), 0 < n → mem.length < off + n → loadBytes mem off n = none
+  | 0, _, h, _ => by omega
+  | n + 1, off, _, h => by
+    by_cases ha : off < mem.length
+    · have hn : 0 < n := by omega
+      simp only [loadBytes, List.getElem?_eq_getElem ha, loadBytes_short mem n (off + 1) hn (by omega)]
+      rfl
+    · simp [loadBytes, List.getElem?_eq_none (Nat.le_of_not_lt ha)]
+
+theorem crc32BodyF_short (mem : List Byte) : ∀ (cnt i : Nat) (crc : BitVec 32), 4 * i ≤ mem.length →
+    mem.length < 4 * (i + cnt) → crc32BodyF mem cnt i crc = none
+  | 0, i, _, h1, h2 => by omega
+  | cnt + 1, i, crc, h1, h2 => by
+    by_cases hw : 4 * i + 4 ≤ mem.length
+    · simp only [crc32BodyF, loadBytes_ok mem (4 * i) 4 hw, Option.bind_eq_bind, Option.bind_some]
+      exact crc32BodyF_short mem cnt (i + 1) _ (by omega) (by omega)
+    · simp only [crc32BodyF, loadBytes_short mem 4 (4 * i) (by omega) (by omega)]
+      rfl
+
+theorem crc32_short (mem : List Byte) (length : Nat) (seed : BitVec 32) (h : mem.length < length) :
+    crc32 mem length seed = none := by
+  unfold crc32
+  by_cases hb : 4 * (length / 4) ≤ mem.length
+  · obtain ⟨c, hc, _⟩ := crc32BodyF_ok mem (length / 4) 0 seed (by omega)
+    have ht : length % 4 ≠ 0 := by omega
+    simp only [hc, Option.bind_eq_bind, Option.bind_some, ht, if_false,
+      loadBytes_short mem (length % 4) (4 * (length / 4)) (by omega) (by omega)]
+    rfl
+  · simp only [crc32BodyF_short mem (length / 4) 0 seed (by omega) (by omega)]
+    rfl
+
 end Igris.C17
